@@ -763,7 +763,7 @@ pub fn run(args: &Args, report: &Report) {
         .extra
         .get("per-shard")
         .and_then(|s| s.parse().ok())
-        .unwrap_or(args.by_tier(5, 40));
+        .unwrap_or(args.by_tier(3, 40));
     let args2 = args.clone();
     let report2 = report.clone();
     run_shards(report, args, 16, move |shard, shard_seed| {
